@@ -115,6 +115,65 @@ theorem read_eof_only_between_frames (s : St α) (net : List Ev) (b : Nat) (hrem
     rw [hf] at this
     exact .inl (this rfl)
 
+
+/-- (round 9, C05-r9m2) A frame that does not authenticate is reported — `Read` returns the decryption error and the
+    connection is closed — as soon as it is completely buffered, WHATEVER its length: also the frame without data
+    (`00 00` + 16 bytes), for which "there is nothing to decrypt" but a tag to verify. -/
+theorem forged_frame_reported_whatever_its_length (buf flight : Nat) (closed : Bool) (f : Frame α) (r : List (Frame α))
+    (net : List Ev) (hsz : f.size ≤ buf) (hbad : f.ok = false) :
+    fetchAux buf flight closed (f :: r) net = (⟨[], 0, 0, [], true⟩, net, some (.closed closed)) := by
+  unfold fetchAux
+  simp [hsz, hbad]
+
+/-- …and that error is final (`readErr` is kept): from the state the error leaves, every later `Read` fails again without
+    releasing anything, whatever arrives — also the sender's next frame, which WOULD authenticate under the counter
+    the refused frame did not use up. For every sequence of reads and every network behaviour. -/
+theorem nothing_released_after_a_decryption_error (net : List Ev) (bs : List Nat) :
+    (run (⟨[], 0, 0, [], true⟩ : St α) net bs).2.2 = bs.map fun _ => .closed true := by
+  induction bs with
+  | nil => simp [run]
+  | cons b bs ih =>
+    have h1 : ConnRead.read (⟨[], 0, 0, [], true⟩ : St α) net b = (⟨[], 0, 0, [], true⟩, net, .closed true) := by
+      have h0 : fetchAux (α := α) 0 0 true [] net = (⟨[], 0, 0, [], true⟩, net, some (.closed true)) := by
+        unfold fetchAux; simp
+      simp [ConnRead.read, fetch, h0]
+    simp [run, h1, ih]
+
+/-- …and the only frames the loop of `DecryptedRead` ever passes over (consumes without reporting a decryption error)
+    are authentic ones: if a call does not end in that error, what is left to do is the old list without its first `k`
+    frames, and each of those `k` authenticated. For every buffer state, frame list and network behaviour. -/
+theorem frames_passed_over_are_authentic (buf flight : Nat) (closed : Bool) (todo : List (Frame α)) (net : List Ev)
+    (h : ∀ c, (fetchAux buf flight closed todo net).2.2 ≠ some (.closed c)) :
+    ∃ k, (fetchAux buf flight closed todo net).1.todo = todo.drop k ∧ ∀ f ∈ todo.take k, f.ok = true := by
+  fun_induction fetchAux buf flight closed todo net with
+  | case1 buf flight net f r h1 h2 h3 ih =>
+    obtain ⟨k, hk, hall⟩ := ih h
+    refine ⟨k + 1, by simpa using hk, ?_⟩
+    intro g hg
+    simp only [List.take_succ_cons, List.mem_cons] at hg
+    rcases hg with rfl | hg
+    · exact h2
+    · exact hall g hg
+  | case2 buf flight closed net f r h1 h2 =>
+    refine ⟨1, by simp, ?_⟩
+    intro g hg
+    simp only [List.take_succ_cons, List.take_zero, List.mem_cons, List.not_mem_nil, or_false] at hg
+    subst hg; assumption
+  | case3 => simp at h
+  | case6 buf flight f r h1 h2 n net' ih =>
+    obtain ⟨k, hk, hall⟩ := ih h
+    exact ⟨k, hk, hall⟩
+  | case11 buf flight h' n net' ih =>
+    obtain ⟨k, hk, hall⟩ := ih h
+    exact ⟨k, hk, hall⟩
+  | _ => first | exact ⟨0, by simp, by simp⟩ | exact absurd rfl (h _) | (exfalso; exact h closed rfl) | (exfalso; exact h true rfl) | (exfalso; exact h false rfl)
+
+/-- non-vacuity: [3 bytes ok] [no data, not authentic] [2 bytes ok], all 60 bytes arrive at once: the first read gives the
+    3 bytes, the second the error; nothing of the third frame is ever released. -/
+example : (run (init [⟨[1, 2, 3], true⟩, ⟨[], false⟩, ⟨[4, 5], true⟩]) [.seg 60, .closed] [8, 8, 8]).2.2
+    = [.data [1, 2, 3], .closed false, (.closed true : Res Nat)] := by
+  simp [run, ConnRead.read, fetch, fetchAux, init, streamSize, Frame.size, bufRead]
+
 -- a frame of 3 plaintext bytes (21 on the wire) of which 10 arrive before the connection ends: reported as cut …
 example : (ConnRead.read (init [⟨[1, 2, 3], true⟩]) [.seg 10, .closed] 8).2.2 = (.cut : Res Nat) := by
   simp [ConnRead.read, fetch, fetchAux, init, streamSize, Frame.size]
